@@ -72,7 +72,7 @@ PROPS = {
         "engines": [storm("scen")],
         "rule": "each evaluation is one accepted bankruptcy judged on equity (unweighted, isolated-tier deposits at full value), signer, insurance-first, pro-rata socialisation, kill state, account disabling; distinct = (regime, killed, permissionless, decimals, transfer fee)",
         "assumptions": COMMON_ASSUMPTIONS,
-        "floors": {"quick": {"C07.banks_left_with_worthless_deposits": 5, "scen.bankrupt_account_moved": 30, "scen.wipeout_debt_equal_to_deposits": 5, "pulse.health_signs_compared/equity": 30, "C07.bankruptcies_accepted": 40, "C07.regime/partial": 3, "C07.regime/fully_insured": 3, "scen.bankruptcy_price_boundary_found": 15}},
+        "floors": {"quick": {"scen.bankruptcy_of_account_with_second_debt": 40, "C07.banks_left_with_worthless_deposits": 5, "scen.bankrupt_account_moved": 30, "scen.wipeout_debt_equal_to_deposits": 5, "pulse.health_signs_compared/equity": 30, "C07.bankruptcies_accepted": 40, "C07.regime/partial": 3, "C07.regime/fully_insured": 3, "scen.bankruptcy_price_boundary_found": 15}},
     },
     "C10": {
         "engines": [storm("scen")],
@@ -84,7 +84,7 @@ PROPS = {
         "engines": [storm()],
         "rule": "each evaluation is one flash-loan start/end instruction, one committed transaction shape containing a start, or one end-time health rejection; distinct = shapes and end-state feature tuples",
         "assumptions": COMMON_ASSUMPTIONS,
-        "floors": {"quick": {"C11.directed_shapes": 200, "C11.directed_liquidation_inside_bracket_rejected": 100, "C11.start_accepted": 50, "C11.end_accepted": 50, "C11.brackets_committed": 50}},
+        "floors": {"quick": {"C11.directed_frozen_account_shapes": 100, "C11.directed_shapes": 200, "C11.directed_liquidation_inside_bracket_rejected": 100, "C11.start_accepted": 50, "C11.end_accepted": 50, "C11.brackets_committed": 50}},
     },
     "C09": {
         "engines": [direct("C09"), storm("chain", arg="C09", sq=8, st=8)],
@@ -134,7 +134,7 @@ PROPS = {
         "engines": [storm("matrix")],
         "rule": "even shards: matrix financial instruction x bank state {Paused, ReduceOnly, Killed via a real wipe-out} with positive controls, reduce-only valuation cells, and protocol-pause timing cells at start+{0,1,1799,1800,1801} with three propagation orders, committed so that the behavioural oracle (no vault / position movement during the group's pause window) sees them; odd shards: storm; distinct = (cell, state, outcome, error code)",
         "assumptions": COMMON_ASSUMPTIONS + ["'in force for a group' is defined by the pause state recorded in the group's own cache (DESIGN 4 C14)"],
-        "floors": {"quick": {"C14.second_pause_without_intermediate_propagation": 20, "C14.tokenless_settlement_state_cells": 40, "pulse.levels_compared_for_accounts_with_reduce_only_deposits": 50, "pulse.health_signs_compared/maintenance": 100, "C14.matrix_controls_ok": 100, "C14.matrix_state_cells": 200, "C14.pause_window_cells": 300, "C14.after_expiry_cells": 200, "C14.receivership_on_paused_bank_cells": 30, "scen.bank_killed": 2}},
+        "floors": {"quick": {"C14.reduce_only_stale_price_cells": 30, "C14.second_pause_without_intermediate_propagation": 20, "C14.tokenless_settlement_state_cells": 40, "pulse.levels_compared_for_accounts_with_reduce_only_deposits": 50, "pulse.health_signs_compared/maintenance": 100, "C14.matrix_controls_ok": 100, "C14.matrix_state_cells": 200, "C14.pause_window_cells": 300, "C14.after_expiry_cells": 200, "C14.receivership_on_paused_bank_cells": 30, "scen.bank_killed": 2}},
     },
     "C19": {
         "engines": [storm("admin")],
